@@ -15,7 +15,7 @@ from .rules.wiring import rule_passthrough_sort, rule_passthrough_engine, rule_c
 
 PROPERTIES = {
     "C01": {
-        "rules": [rule_dispatch, rule_stable, rule_passthrough_engine],
+        "rules": [rule_dispatch, rule_stable, rule_passthrough_engine, M.rule_varshift],
         "thorough": [selftest],
         "technique": "engine-dispatch model + sibling cross-check of kernel signatures (custom AST checker)",
         "level_text": "Static, all-paths: for every kernel name a blueprint can ask for and every engine, the implementation the dispatch "
@@ -147,13 +147,13 @@ PROPERTIES = {
         "explanation": "R-BLOCKONLY",
     },
     "C20": {
-        "rules": [M.rule_collide, M.rule_castorder, rule_infresolve],
+        "rules": [M.rule_collide, M.rule_castorder, rule_infresolve, M.rule_varshift],
         "thorough": [selftest],
         "technique": "sentinel-collision pattern on NaN substitutes; dtype plumbing of the engine wrappers; widening table",
         "level_text": "Static: no all-NaN detector compares a result with its own NaN substitute unless conjoined with a valid-member "
                       "count; the reduceat calls and output buffer use the requested dtype; numbagg's input casts only widen and the "
                       "requested dtype applies to the result. Overflow and cancellation numerics are not decided.",
-        "explanation": "R-COLLIDE, R-CASTORDER, R-INFRESOLVE",
+        "explanation": "R-COLLIDE, R-CASTORDER, R-INFRESOLVE, R-VARSHIFT",
     },
     "C03": {
         "rules": [rule_keys, rule_order, rule_axiskey, rule_global, rule_algebra],
